@@ -1,6 +1,7 @@
 import Nstd.Sha.LemmasHmac
 import Nstd.Sha.LemmasUnroll2
 import Nstd.Sha.ModelU2
+import Nstd.Sha.LemmasBody
 /-
   Property C17: SHA-256 and HMAC-SHA-256 equal the standard for every input and chunking.
 
@@ -99,6 +100,25 @@ theorem spec_pad_is_whole_blocks (m : List UInt8) : (Spec.pad m).length % 64 = 0
 theorem streaming (chunks : List (List UInt8)) (hlen : chunks.flatten.length < 2 ^ 61) :
     (finalize (chunks.foldl update init)).1 = Spec.sha256 chunks.flatten :=
   (digest_chunks init ((inv_nil_iff _).mp inv_init) chunks hlen).1
+
+/-- the bodies of `Sha256::Private::WriteByteBlock`, `Sha256::update` and `Sha256::finalize` as TRANSLATED from the
+current sources (`Nstd/Generated/Sha256Body.lean`: typed statement translator - locals `curBufferPos : UInt32`,
+`lenInBits : UInt64`, casts, `curBufferPos++` inside an index, `*data++`/`size--` as a walk over the input list,
+`*digest++ = …` as output bytes, `while (curBufferPos != 64 - 8)` with an iteration budget of 2^32) are the
+hand-written functions of `Model.lean` the other theorems talk about - for every object state (no well-formedness
+hypothesis) and every input; in particular the `while` loop never uses up its budget -/
+theorem generated_bodies_are_the_model (p : Sha) (data : List UInt8) :
+    Sha256Body.WriteByteBlock p = writeByteBlock p ∧ Sha256Body.update p data = update p data ∧
+    Sha256Body.finalize p = finalize p :=
+  ⟨WriteByteBlock_eq p, gen_update_eq p data, gen_finalize_eq p⟩
+
+/-- hence the digest theorem for the translated code itself: every chunking, fed to the generated `update` and
+finished by the generated `finalize`, gives the FIPS digest -/
+theorem streaming_generated (chunks : List (List UInt8)) (hlen : chunks.flatten.length < 2 ^ 61) :
+    (Sha256Body.finalize (chunks.foldl Sha256Body.update init)).1 = Spec.sha256 chunks.flatten := by
+  have hu : Sha256Body.update = update := funext fun p => funext fun d => gen_update_eq p d
+  rw [hu, gen_finalize_eq]
+  exact streaming chunks hlen
 
 /-- `Sha256::hash` -/
 theorem hash_eq_fips (m : List UInt8) (hlen : m.length < 2 ^ 61) : hash m = Spec.sha256 m := by
